@@ -26,6 +26,7 @@ THEOREMS = [P + t for t in (
     "scan_uint64_exact_or_rejected", "scan_int64_exact_or_rejected",
     "extract_faithful_int", "extract_faithful_frac", "exact_when_representable", "within_one_ulp", "nearest_unique", "digit_table_correct", "ldexp_exact_normal", "int_print_exact_to_2p53",
     "ldexp_faithful_subnormal", "ldexp_overflow_faithful", "ldexp_exact_int",
+    "seventeen_digits_suffice", "print17_roundtrip_partial",
 )]
 
 ENV = dict(os.environ, ASAN_OPTIONS="detect_leaks=0:abort_on_error=0", UBSAN_OPTIONS="print_stacktrace=1")
